@@ -79,7 +79,7 @@ func cmdCheck(args []string) int {
 		seed = -seed
 	}
 	solverSeed = seed % 1000000
-	cfg := RunConfig{Repo: envOr("FVC_REPO", "/repo"), Verif: envOr("FVC_VERIF", "/verif"), Prop: prop, Tier: tier, Timeout: 30, Workers: 16}
+	cfg := RunConfig{Repo: envOr("FVC_REPO", "/repo"), Verif: envOr("FVC_VERIF", "/verif"), Prop: prop, Tier: tier, Timeout: 30, Workers: 16, KeepQueries: os.Getenv("FVC_KEEP") != ""}
 	if tier == "thorough" {
 		cfg.Timeout = 120
 		cfg.AllSolvers = true
@@ -122,6 +122,9 @@ func cmdCheck(args []string) int {
 			solverTime += a.Seconds
 		}
 		slowest = append(slowest, slow{r.Obl.Name, r.Res.Seconds})
+		if os.Getenv("FVC_VERBOSE") != "" {
+			fmt.Printf("%-8s %-14s %6.2fs  %s\n", r.Res.Status, r.Res.Solver, r.Res.Seconds, r.Obl.Name)
+		}
 		if r.Res.Status == "unsat" {
 			discharged++
 			perSolver[r.Res.Solver]++
